@@ -590,3 +590,65 @@ mod t_chrony_poller {
         }
     }
 }
+
+/// Verification hooks: public wrappers around this module's private items, for out-of-tree
+/// verification harnesses. Compiled only with `--cfg aws_clock_bound_verif`; adds no behaviour.
+#[cfg(aws_clock_bound_verif)]
+pub mod verif_hooks {
+    use super::*;
+
+    /// Public mirror of the private `ChronyOperations` trait.
+    pub trait ChronyOps {
+        fn get_tracking(&mut self) -> Option<Tracking>;
+        fn is_within_grace_period(&self) -> bool;
+    }
+
+    struct Adapter<T: ChronyOps>(T);
+
+    impl<T: ChronyOps> ChronyOperations for Adapter<T> {
+        fn get_tracking(&mut self) -> Option<Tracking> {
+            self.0.get_tracking()
+        }
+
+        fn is_within_grace_period(&self) -> bool {
+            self.0.is_within_grace_period()
+        }
+    }
+
+    /// Run the private poller loop with caller-supplied chrony operations.
+    pub fn run_poller<T: ChronyOps>(
+        ctx: Context,
+        ops: T,
+        phc_info: Option<PhcInfo>,
+        sleep: Duration,
+    ) {
+        run_clock_error_bound_poller(ctx, Adapter(ops), phc_info, sleep)
+    }
+
+    /// Public handle on the private `ClockErrorBoundPoller`.
+    pub struct Poller(ClockErrorBoundPoller);
+
+    impl Poller {
+        pub fn new_default() -> Self {
+            Poller(ClockErrorBoundPoller::default())
+        }
+
+        pub fn with_last_tracking_data(last: Instant) -> Self {
+            Poller(ClockErrorBoundPoller {
+                last_tracking_data: last,
+            })
+        }
+
+        pub fn last_tracking_data(&self) -> Instant {
+            self.0.last_tracking_data
+        }
+
+        pub fn is_within_grace_period(&self) -> bool {
+            self.0.is_within_grace_period()
+        }
+    }
+
+    pub fn phc_error_bound_from_path(path: &std::path::Path) -> Result<i64, std::io::Error> {
+        get_phc_error_bound_from_path(path)
+    }
+}
